@@ -355,6 +355,11 @@ pub fn replacement_values() -> Vec<Option<Yaml>> {
     }
     v.push(Some(ystr(&"a".repeat(300))));
     v.push(Some(ystr(&format!("{}.com", "l".repeat(64)))));
+    // values around the largest an 8-bit count of 8-octet units can describe (options of router
+    // advertisements: 2040 octets with their two-octet head), and around twice that
+    for n in [2030usize, 2037, 2038, 2039, 2040, 2042, 2046, 2047, 2048, 4086, 4090, 4095] {
+        v.push(Some(ystr(&format!("https://portal.example/{}", "p".repeat(n - 23)))));
+    }
     // long values that are not ASCII, at every alignment of their characters (error messages
     // quote the offending value, and whatever shortens or pads a quotation counts octets), alone
     // and inside a collection
